@@ -21,7 +21,7 @@ RULE = ("token leg: account/password of printable ASCII (incl. + & = % space) or
         "received form fields, checks constant fields, loginAccount, the password derivation against the login id it issued, the "
         "session id on getToken and the udpid shape, and records every failed check; client side: get_token returns exactly the "
         "matching (token, key) or raises CloudError; faults raise CloudError/ApiError after <= 3 POSTs of that request and never "
-        "another type; success when an ok comes within the budget. Discovery leg: a V3 model device accepting only the "
+        "another type; success when an ok comes within the budget. Discovery leg: a V3 model device (answering a wrong token with an error packet, or ignoring it) accepting only the "
         "credentials registered for udpid(id bytes, little or big endian) + the model cloud + Discover.discover(auto_connect=True): "
         "device token/key == registered pair, online, genuine handshake seen; for big endian the little-endian attempt failed "
         "first; variants: up to two more V3 devices answer the same discovery (their cloud round trips take time and overlap); the cloud fails during a first Discover.connect() and has recovered when the user retries. Non-trivial: token list with >= 2 entries and a near miss before the match, or a fault sequence with >= 1 retry, "
@@ -161,6 +161,7 @@ def check_discovery(case: dict):
         h = {"ip": "10.0.0.77", "id": dev_id, "port": case.get("port", 6444), "sn": "S" * 32, "tt": 0xAC, "suffix": "ABCD", "version": 3,
              "listen_port": 6445, "extra": bytes(8).hex()}
         dev = SimDevice(loop, version=3, device_id=dev_id, token=token, key=key, ac=ModelAC())
+        dev.silent_on_bad_token = bool(case.get("silent"))     # firmware that ignores a handshake with a wrong token instead of answering ERROR
         net.listen(h["ip"], h["port"], dev)
         # further V3 devices answering the same discovery (their cloud logins / token requests overlap in time)
         world_hosts = [dict(ip=h["ip"], listen_port=6445, replies=[(0.05, 6445, discsim.good_reply(h))])]
@@ -221,7 +222,7 @@ def check_discovery(case: dict):
     if case.get("outage"):
         return None          # attempts made during the outage are not constrained; the retry succeeded with the right credentials
     if endian == "big":
-        if len(hs) < 2 or hs[0][1] is not False or hs[-1][1] is not True:
+        if len(hs) < 2 or hs[0][1] is not False or hs[-1][1] is not True or any(x[1] for x in hs[:-1]):
             return ("discover/endian-order", f"handshake attempts {hs}")
     else:
         if len(hs) != 1 or hs[0][1] is not True:
@@ -270,7 +271,7 @@ def run(ctx) -> None:
     ctx.hyp("token", token_cases, lambda c: _run_one(ctx, c), ctx.n(3200, 160000))
     disc_cases = st.fixed_dictionaries({"leg": st.just("discovery"), "id": gens.device_ids(48).filter(lambda i: i.to_bytes(6, "little") != i.to_bytes(6, "big")),
                                         "endian": st.sampled_from(["little", "big"]), "port": st.sampled_from([6444, 6444, 7000])},
-                                       optional={"more": st.lists(st.fixed_dictionaries({"id": gens.device_ids(48).filter(lambda i: i.to_bytes(6, "little") != i.to_bytes(6, "big")),
+                                       optional={"silent": st.booleans(), "more": st.lists(st.fixed_dictionaries({"id": gens.device_ids(48).filter(lambda i: i.to_bytes(6, "little") != i.to_bytes(6, "big")),
                                                                                          "endian": st.sampled_from(["little", "big"]), "stagger": st.sampled_from([0, 1, 30, 200])}), max_size=2),
                                                  "outage": st.fixed_dictionaries({}, optional={
                                            "/v1/user/login/id/get": st.lists(st.sampled_from(["timeout", "timeout", "http500", "connect", "api:3101"]), min_size=1, max_size=3),
